@@ -38,22 +38,22 @@ PROPS = {
               explanation="Mixed: the value-level functions between the recorded node table and the returned value are proved against their contracts; that the recorded table is the meaning of the describing function (tracing) is only covered by the bounded program-level stand-in."),
     "C02": P_(["scheduler", "values", "nodeexec"], ["reference_matrix"], dict(SW)),
     "C03": P_(["scheduler", "values", "digraph", "dagproto"], ["programs_flat", "selection"], dict(SW, active=True)),
-    "C04": P_(["scheduler", "values", "dagproto"], ["config"], dict(SW)),
+    "C04": P_(["scheduler", "values", "dagproto", "dagadmin"], ["config"], dict(SW)),
     "C05": P_(["scheduler", "nodeexec"], ["config"], dict(SW)),
     "C06": P_(["scheduler", "digraph", "dagproto"], ["config"], dict(SW)),
-    "C07": P_(["digraph", "dagproto", "nodeexec"], ["priority_table", "config"]),
-    "C08": P_(["scheduler", "dagproto"], ["config"], dict(SW)),
+    "C07": P_(["digraph", "dagproto", "nodeexec", "dagadmin"], ["priority_table", "config"]),
+    "C08": P_(["scheduler", "dagproto", "dagadmin"], ["config"], dict(SW)),
     "C09": P_(["scheduler", "values"], [], dict(SW, fail=True, active=True)),
     "C10": P_(["scheduler", "values"], ["programs", "reference_matrix"], dict(SW, active=True)),
-    "C11": P_(["dagproto", "digraph", "values"], ["setup_histories", "build_validation"]),
-    "C12": P_(["digraph", "dagproto", "values"], ["selection"]),
-    "C13": P_(["digraph", "dagproto"], ["selection_debug", "build_validation"]),
+    "C11": P_(["dagproto", "digraph", "values", "dagadmin"], ["setup_histories", "build_validation"]),
+    "C12": P_(["digraph", "dagproto", "values", "dagadmin"], ["selection"]),
+    "C13": P_(["digraph", "dagproto", "dagadmin"], ["selection_debug", "build_validation"]),
     "C14": P_(["scheduler", "values", "dagproto", "nodeexec"], ["profile"], dict(SW, fail=True)),
-    "C15": P_(["dagproto", "values", "digraph"], ["no_leak", "selection", "compose"]),
+    "C15": P_(["dagproto", "values", "digraph", "dagadmin"], ["no_leak", "selection", "compose"]),
     "C16": P_(["threads", "dagproto", "values"], ["threads"], claim="other",
               explanation="Mixed: the ownership guards (who may take the description branch, lock discipline of threadsafe_make_dag, frames of the run path) are proved; LazyExecNode.__call__ and real interleavings are covered by the bounded thread stand-in only."),
     "C17": P_(["scheduler", "values", "dagproto"], ["async", "programs_flat"], dict(SW)),
-    "C18": P_(["dagproto"], ["cache"]),
+    "C18": P_(["dagproto", "dagadmin"], ["cache"]),
     "C19": P_(["digraph"], ["compose"], claim="exploration",
               explanation="compose() is outside the verifier's subset (deepcopy of frozen dataclasses, in-place rewiring of shared lists); decided by the bounded stand-in only; the single proved obligation concerns ancestors_of_iter."),
     "C20": P_([], ["programs", "reference_matrix"], claim="exploration",
